@@ -226,7 +226,9 @@ def metamorphic(rng, m, text, full, res):
     m3 = copy.deepcopy(m)
     cls3 = next(c for _, _, c in find_templates(m3) if c.name == cls.name)
     old = rng.choice([tp.name for tp in cls3.tmpl])
-    new = rng.choice(["ZZQ", "Wv9", "R", "PARAM_X", "ThisT", "ArgOfThis", "TThis"])
+    # (spellings that merely BEGIN or END with a word of the dialect are ordinary identifiers)
+    new = rng.choice(["ZZQ", "Wv9", "R", "PARAM_X", "ThisT", "ArgOfThis", "TThis", "classT", "typenameT", "class_type", "typename_pose",
+                      "classifier", "templateT", "constT", "enumT", "virtualT", "staticT", "operatorT", "namespaceT", "structT", "typedefT"])
     rename_param(cls3, old, new)
     t3 = render(m3)
     ren = streams.impl_inst(t3, "icpp")
@@ -273,11 +275,79 @@ def fwd_typedef_case(idx, payload):
     return res
 
 
+def this_collision_case(idx, payload):
+    """classes and instantiations whose GENERATED (unqualified) names collide — the same class name in several namespaces,
+    instantiations whose arguments differ only in their namespace — with `This` in argument position: in every class the
+    `This` of an argument is that very class, whatever else exists in the module and whatever was instantiated before in the
+    process (two of the files are instantiated one after the other)"""
+    import re
+    seed, _ = payload
+    rng = random.Random(seed * 1000003 + idx + 272727)
+    cname = rng.choice(["Foo", "Node", "Key"])
+    nss = rng.sample(["a", "b", "c", "geo::in", "nav"], rng.randint(2, 3))
+
+    def members(nm):
+        out = []
+        if rng.random() < 0.8:
+            out.append("%s(const This& o);" % nm)
+        if rng.random() < 0.7:
+            out.append("%s(int n, This* p);" % nm)
+        if rng.random() < 0.8:
+            out.append("bool eq(const This& t, double tol) const;")
+        if rng.random() < 0.6:
+            out.append("static This Make(const This& x, This y);")
+        if rng.random() < 0.5:
+            out.append("void take(This* p);")
+        if rng.random() < 0.4:
+            out.append("template<K = {int, double}> void put(const This& t, K k);")
+        return " ".join(out) or "%s(const This& o);" % nm
+
+    def ns_block(ns, body):
+        return " ".join("namespace %s {" % x for x in ns.split("::")) + " " + body + " " + "}" * len(ns.split("::"))
+    blocks = [ns_block(ns, "class P {}; class %s { %s };" % (cname, members(cname))) for ns in nss]
+    box = "template<T = {%s}> class Box { %s T get() const; };" % (", ".join(ns + "::P" for ns in nss), members("Box"))
+    texts = [b + "\n" for b in blocks] + ["\n".join(blocks) + "\n" + box + "\n"]
+    rng.shuffle(texts)
+    res = dict(idx=idx, text="\x1e".join(texts), kinds=["this_collision"], bad=None)
+    basic = {"int", "double", "bool", "void"}
+    for t in texts:
+        full = streams.impl_inst(t, "icpp")
+        if full.startswith("ERR"):
+            res["bad"] = dict(kind="spec", what="instantiation of classes with `This` arguments fails (%s)" % full[:80], input=t, files_before=texts[:texts.index(t)])
+            return res
+        own = None
+        for line in full.split("\n"):
+            cm = re.match(r'C (\w+) \| ([^|]+?) \|', line)
+            if cm:
+                own = cm.group(2).strip()
+                continue
+            if not line.startswith("  ") or own is None:
+                continue
+            am = re.search(r'\(([^()]*)\)[^()]*$', line)
+            for a in (am.group(1).split(",") if am and am.group(1) else []):
+                ty = re.sub(r'\s+\w+$', '', a.strip())
+                ty = re.sub(r'^const\s+', '', ty).rstrip("&*").strip()
+                sm = re.match(r'std::shared_ptr<(.*)>$', ty)
+                ty = sm.group(1) if sm else ty
+                if ty in basic or (own.startswith("Box<") and ty == own[4:-1]):
+                    continue
+                if ty != own:
+                    res["bad"] = dict(kind="spec", what="`This` in an argument of class %s stands for %s" % (own, ty), input=t,
+                                      files_instantiated_before=texts[:texts.index(t)], line=line.strip())
+                    return res
+        model = streams.model_call("icpp", t)
+        if model != full:
+            res["bad"] = dict(kind="model", what="model instantiation != implementation (This collision stream)", input=t, **streams.first_diff(full, model))
+            return res
+    return res
+
+
 def run(ctx, n, off=0, collect=True):
     first = None
     # second half: classes with many templated members (member-level templates next to each other)
     for r in (fw.run_cases(case, [(ctx.seed + off, None)] * n + [(ctx.seed + off + 1, dict(p_template=0.3, p_member_template=0.8, max_members=7, max_decls=3))] * (n // 2))
-              + fw.run_cases(fwd_typedef_case, [(ctx.seed + off, None)] * max(10, n // 8))):
+              + fw.run_cases(fwd_typedef_case, [(ctx.seed + off, None)] * max(10, n // 8))
+              + fw.run_cases(this_collision_case, [(ctx.seed + off, None)] * max(16, n // 8))):
         if "crash" in r:
             raise RuntimeError(r["crash"])
         if collect:
